@@ -258,6 +258,107 @@ def run_polars(rep, rng, n):
                                  detail={"valid_rows_dropped": missing, "invalid_rows_kept": extra})
 
 
+FIELD_KW = {"eq": lambda x: {"eq": A.to_py(x["v"])}, "ne": lambda x: {"ne": A.to_py(x["v"])},
+            "gt": lambda x: {"gt": A.to_py(x["v"])}, "ge": lambda x: {"ge": A.to_py(x["v"])},
+            "lt": lambda x: {"lt": A.to_py(x["v"])}, "le": lambda x: {"le": A.to_py(x["v"])},
+            "inRange": lambda x: {"in_range": {"min_value": A.to_py(x["lo"]), "max_value": A.to_py(x["hi"]),
+                                               "include_min": x["incLo"], "include_max": x["incHi"]}},
+            "isin": lambda x: {"isin": [A.to_py(v) for v in x["vs"]]}, "notin": lambda x: {"notin": [A.to_py(v) for v in x["vs"]]},
+            "strStartswith": lambda x: {"str_startswith": x["s"]}, "strEndswith": lambda x: {"str_endswith": x["s"]},
+            "strLength": lambda x: {"str_length": {"min_value": x["lo"], "max_value": x["hi"]}},
+            "strMatches": lambda x: {"str_matches": A.pat_render(x["p"])}, "strContains": lambda x: {"str_contains": A.pat_render(x["p"])}}
+PYTYPE = {"int64": int, "float64": float, "str": str, "bool": bool}
+
+
+def run_entries(rep, rng, n):
+    """the other entry points the property names: a stand-alone Column, a SeriesSchema and a model whose Config sets
+    drop_invalid_rows — one field, row-level violations only, survivors against the Lean specification"""
+    import pandera as pa
+    cases = []
+    for _ in range(n):
+        c = P.gen_case(rng, regex_rate=0.0, index_schema_rate=0.0, conform_bias=0.7, max_rows=6)
+        S, D = c["schema"], c["frame"]
+        specs = [sp for sp in S["columns"] if sp["dtype"] in PYTYPE and any(col["name"] == sp["name"] and col["dtype"] == sp["dtype"]
+                                                                         for col in D["cols"])]
+        if not specs or not D["nrows"]:
+            continue
+        sp = dict(rng.choice(specs), coerce=False, default=None, required=True)
+        if rng.random() < 0.4:
+            sp["unique"] = True
+        sp["reportDup"] = rng.choice(["first", "last", "none", "none", "none"])
+        for ck in sp["checks"]:
+            ck["ignoreNa"] = True
+        col = dict(next(col for col in D["cols"] if col["name"] == sp["name"]))
+        col["vals"] = list(col["vals"])
+        if A.can_null(sp["dtype"]) and rng.random() < 0.4:
+            col["vals"][rng.randrange(D["nrows"])] = A.NULL
+        labels = rng.sample(range(10, 40), D["nrows"])
+        fr = {"cols": [col], "index": [{"name": None, "dtype": "int64", "vals": [A.vint(i) for i in labels]}], "nrows": D["nrows"]}
+        sch = {"columns": [sp], "index": None, "strict": "no", "ordered": False, "unique": [], "reportDup": "first",
+               "coerce": False, "addMissing": False, "dropInvalid": True}
+        cases.append({"schema": sch, "frame": fr, "entries": True})
+    ans = run_driver("C11", [{"schema": c["schema"], "frame": c["frame"]} for c in cases])
+    for c, a in zip(cases, ans):
+        if "error" in a or not a["wf"] or a["nonRowErrors"] or a["parseCrash"] or not P.well_typed(c):
+            continue
+        sp, fr = c["schema"]["columns"][0], c["frame"]
+        df = A.frame_of(fr)
+        labels = df.index.tolist()
+        kw = A.component_kwargs(sp)
+        entries = {
+            "Column": lambda: pa.Column(name=sp["name"], drop_invalid_rows=True, **kw).validate(df.copy(), lazy=True),
+            "SeriesSchema": lambda: pa.SeriesSchema(name=sp["name"], drop_invalid_rows=True, **kw).validate(df[sp["name"]].copy(), lazy=True),
+        }
+        if sp["reportDup"] == "none" and all(next(iter(ck["b"])) in FIELD_KW for ck in sp["checks"]) and len({next(iter(ck["b"])) for ck in sp["checks"]}) == len(sp["checks"]):
+            fkw = {}
+            for ck in sp["checks"]:
+                k = next(iter(ck["b"]))
+                fkw.update(FIELD_KW[k](ck["b"][k]))
+
+            def model_entry():
+                M = type("M", (pa.DataFrameModel,), {
+                    "__annotations__": {sp["name"]: PYTYPE[sp["dtype"]]},
+                    sp["name"]: pa.Field(nullable=sp["nullable"], unique=sp["unique"], **fkw),
+                    "Config": type("Config", (), {"drop_invalid_rows": True})})
+                return M.validate(df.copy(), lazy=True)
+            entries["model Config"] = model_entry
+        for entry, fn in entries.items():
+            case = dict(c, entry=entry)
+            with warnings.catch_warnings():
+                warnings.simplefilter("ignore")
+                try:
+                    out = fn()
+                except (pa.errors.SchemaErrors, pa.errors.SchemaError) as e:
+                    rep.count(f"entry:{entry}:raised")
+                    rep.property_failure(case, f"{entry} with drop_invalid_rows raised on row-level violations only: "
+                                               f"{type(e).__name__}", region=entry_region(c, a, [], []))
+                    continue
+                except Exception as e:  # noqa: BLE001
+                    rep.count(f"entry:{entry}:crash:{type(e).__name__}")
+                    rep.property_failure(case, f"{entry} with drop_invalid_rows crashed: {type(e).__name__}: {str(e)[:80]}")
+                    continue
+            survivors = [labels.index(x) for x in out.index.tolist()]
+            rep.case(case, nontrivial=len(survivors) < len(labels))
+            rep.evaluations += 1
+            rep.count(f"entry:{entry}:ok")
+            if survivors != a["specKeep"]:
+                missing = [i for i in a["specKeep"] if i not in survivors]
+                extra = [i for i in survivors if i not in a["specKeep"]]
+                rep.property_failure(case, f"{entry}: surviving rows {survivors} differ from the rows satisfying every row-level "
+                                           f"constraint {a['specKeep']}", region=entry_region(c, a, missing, extra),
+                                     detail={"valid_rows_dropped": missing, "invalid_rows_kept": extra})
+
+
+def entry_region(c, a, missing, extra):
+    """K_C11_nullDuplicates only: a kept row whose duplicated value is null"""
+    if missing or not extra:
+        return None
+    vals = c["frame"]["cols"][0]["vals"]
+    if all(vals[i] == A.NULL and sum(1 for v in vals if v == A.NULL) >= 2 for i in extra):
+        return "K_C11_nullDuplicates"
+    return None
+
+
 def polars_region(c, a, missing, extra):
     return None
 
@@ -272,12 +373,15 @@ def run(tier, replay=None):
         case = json.loads(open(replay).read())["case"]
         if case.get("backend") == "polars":
             pass
+        elif case.get("entries"):
+            run_entries(rep, rng_for(PROP, "entries"), 300)
         else:
             run_cases(rep, [case])
         return rep.finish(rule="replay")
     n = 800 if tier == "quick" else 20000
     run_cases(rep, [c for c in corpus_cases(PROP) if c.get("backend") != "polars"] + [gen_case(rng) for _ in range(n)])
     run_polars(rep, rng, n // 4)
+    run_entries(rep, rng_for(PROP, "entries"), 300 if tier == "quick" else 6000)
     return rep.finish(
         rule="C03's generator with drop_invalid_rows=True, lazy validation and a unique index (int and str labels, "
              "labels with quotes): surviving positions (recovered through the labels) vs the positions on which every "
